@@ -190,5 +190,30 @@ Theorem C12_largest_value_at_most_largest_singular_value m n k ra rb (Qm Ua Va U
   meq k n (qmm m (qherm Qm) (@usv RR ra Ua sa Va)) (@usv RR rb Ub sb Vb) ->
   (sb 0%nat <= sa 0%nat)%R.
 Proof. exact (compressed_top_value_le m n k ra rb Qm Ua Va Ub Vb sa sb). Qed.
+(* INTERLACING, every index: the returned values are the singular values of a compression Q^H A (even last pass, rand_qsvd) or A Q' (odd last
+   pass) of A by a matrix with orthonormal columns, and every singular value of a compression is at most the corresponding singular value of A.
+   (Min-max side: a matrix that factors through i rows leaves an operator residual of at least sigma_i -- thm/MinMax.v, with the existence of
+   a non-trivial solution of an i x (i+1) homogeneous quaternion system, thm/Kernel.v.) *)
+From QVT Require Import Kernel MinMax.
+Theorem C12_interlacing m n k ra rb i (Qm Ua Va Ub Vb : qmat RR) (sa sb : nat -> R) :
+  i < ra -> i < rb -> meq k k (qmm m (qherm Qm) Qm) qmid ->
+  meq ra ra (qmm m (qherm Ua) Ua) qmid -> meq ra ra (qmm n (qherm Va) Va) qmid ->
+  meq rb rb (qmm k (qherm Ub) Ub) qmid -> meq rb rb (qmm n (qherm Vb) Vb) qmid ->
+  (forall j, j < ra -> (0 <= sa j)%R) -> (forall a b, a <= b -> b < ra -> (sa b <= sa a)%R) ->
+  (forall j, j < rb -> (0 <= sb j)%R) -> (forall a b, a <= b -> b < rb -> (sb b <= sb a)%R) ->
+  meq k n (qmm m (qherm Qm) (@usv RR ra Ua sa Va)) (@usv RR rb Ub sb Vb) ->
+  (sb i <= sa i)%R.
+Proof. exact (compression_interlacing m n k ra rb i Qm Ua Va Ub Vb sa sb). Qed.
+Theorem C12_interlacing_right_compression m n k ra rb i (Qm Ua Va Ub Vb : qmat RR) (sa sb : nat -> R) :
+  i < ra -> i < rb -> meq k k (qmm n (qherm Qm) Qm) qmid ->
+  meq ra ra (qmm m (qherm Ua) Ua) qmid -> meq ra ra (qmm n (qherm Va) Va) qmid ->
+  meq rb rb (qmm m (qherm Ub) Ub) qmid -> meq rb rb (qmm k (qherm Vb) Vb) qmid ->
+  (forall j, j < ra -> (0 <= sa j)%R) -> (forall a b, a <= b -> b < ra -> (sa b <= sa a)%R) ->
+  (forall j, j < rb -> (0 <= sb j)%R) -> (forall a b, a <= b -> b < rb -> (sb b <= sb a)%R) ->
+  meq m k (qmm n (@usv RR ra Ua sa Va) Qm) (@usv RR rb Ub sb Vb) ->
+  (sb i <= sa i)%R.
+Proof. exact (compression_interlacing_right m n k ra rb i Qm Ua Va Ub Vb sa sb). Qed.
 Print Assumptions C12_error_at_least_eckart_young.
 Print Assumptions C12_largest_value_at_most_largest_singular_value.
+Print Assumptions C12_interlacing.
+Print Assumptions C12_interlacing_right_compression.
